@@ -175,6 +175,11 @@ def gen_unit(rng, stream="main"):
     """-> list of cases sharing one document."""
     surrogates_ok = rng.random() < 0.3
     atoms = gen.soup(rng, surrogates_ok=surrogates_ok)
+    r0 = rng.random()
+    if r0 < 0.02:
+        atoms = [""]                       # the empty document (a BOM may still precede it)
+    elif r0 < 0.06:
+        atoms = atoms[:rng.randint(1, 2)]  # very short documents: EOF inside the sniffing reads
     text = "".join(atoms)
     surr = has_surrogate(text)
     if rng.random() < 0.25:
